@@ -17,6 +17,9 @@
    by trial decryption under the accounts' and the recipient's keys) and expire where asked; from then on its
    inputs are out of the ledger and ineligible for every later proposal until it expires, its change counts as
    pending; the environment later mines some of these transactions (or a conflicting spend of their inputs).
+   Transparent coins as inputs (checks/c08_coins.py, Coins.tla / Trace_Coins.tla / MC_Shield.tla): propose_shielding must
+   select exactly the eligible coins of the source addresses, coin-funded propose_transfer only eligible coins of
+   the account, created shielding transactions spend exactly the proposal's coins; coin locks.
 3. The proposal validators (Step::from_parts, Proposal::multi_step / single_step, the protobuf decode path) are
    bound directly (checks/c08_validators.py, spec/Wallet/ProposalValid.tla): TLC enumerates valid and invalid
    step lists with the set of violated rules; verdict and error class of the real validators must agree.
@@ -27,6 +30,7 @@ import os
 from . import lib
 from . import c01
 from . import c08_validators
+from . import c08_coins
 
 AREA = "Wallet"
 
@@ -135,6 +139,10 @@ def run(ctx):
     vstats = None
     if not ctx.violations:
         vstats = c08_validators.run_part(ctx)
+    # transparent coins as proposal inputs (wallet crates with transparent-inputs): propose_shielding checked exactly,
+    # coin-funded propose_transfer relationally, create_proposed_transactions, coin locks (Coins.tla / Trace_Coins.tla)
+    if not ctx.violations:
+        ctx.extra["coin_proposal_stats"] = c08_coins.run_part(ctx)
     lib.mc_evidence(
         ctx,
         rule="seeded random wallet histories (as C01) interleaved with propose_transfer calls under 4 confirmation policies, "
@@ -157,6 +165,8 @@ def replay(ctx, path):
         rep = json.load(f)
     if rep.get("part") == "validators":
         return c08_validators.replay_part(ctx, rep)
+    if rep.get("kind") == c08_coins.KIND:
+        return c08_coins.replay_part(ctx, rep)
     tp = ctx.path("replay_trace.ndjson")
     with open(tp, "w") as f:
         for e in rep["history"]:
@@ -198,3 +208,4 @@ def selftest(ctx):
         raise lib.ToolError("selftest: unbalanced step at event %d not rejected there" % (idx + 1))
     lib.log("selftest ok: duplicated input and unbalanced step rejected at their event")
     c08_validators.selftest_part(ctx)
+    c08_coins.selftest_part(ctx)
